@@ -83,6 +83,64 @@ def b_rat(job):
             ev = dict(f); ev.update({"e": "lit", "i": nid, "src": {"n": big(sn), "d": big(sd)}, "cert": cert(**c)})
             events.append(ev)
         ids = list(vals)
+        accs = []
+        hot = [None]
+        # ---- representation-state suite: an object in each of the states (word only, GMP only, both parts valid), every
+        # in-place operation, every kind of operand; afterwards two operations that go through GMP expose a stale part
+        def s_lit(v):
+            nonlocal nid
+            nid += 1
+            o = cv.ask("lit %d %s" % (nid, v))
+            if "err" in o:
+                events.append({"e": "err", "i": nid}); return None
+            f, nd, c = value_fields(o)
+            sn, sd = parse_val(str(v))
+            vals[nid] = nd; ids.append(nid)
+            ev = dict(f); ev.update({"e": "lit", "i": nid, "src": {"n": big(sn), "d": big(sd)}, "cert": cert(**c)})
+            events.append(ev)
+            return nid
+        def s_ip(op, a, b=None):
+            nonlocal nid
+            nid += 1
+            o = cv.ask("ip %d %s %d%s" % (nid, op, a, "" if b is None else " %d" % b))
+            if "err" in o:
+                events.append({"e": "err", "i": nid}); return None, o
+            f, nd, c = value_fields(o)
+            vals[nid] = nd; ids.append(nid); ids.remove(a)
+            ev = dict(f); ev.update({"e": "op", "i": nid, "op": op, "a": a, "b": 0 if b is None else b, "cert": cert(**c)})
+            events.append(ev)
+            stats["ops"] += 1; stats["inplace"] = stats.get("inplace", 0) + 1
+            if o.get("w") and o.get("m"): stats["both_valid"] = stats.get("both_valid", 0) + 1
+            return nid, o
+        combos = [(st, op, kd) for st in ("W", "M", "WM") for op in ("addassign", "subassign", "mulassign", "divassign", "negate")
+                  for kd in ("si", "neg", "sf", "bi", "bf")]
+        rng.shuffle(combos)
+        for st, op, kd in combos[:job.get("suite", 24)]:
+            bigv = rng.choice([3000000000, 2**31, 2**32 + 5, -2**31 - 1, 2**40 + 3]) + rng.randint(0, 9)
+            small = rng.randint(-6, 6) or 1
+            if st == "W":
+                a = s_lit(small)
+            elif st == "M":
+                a = s_lit(bigv)
+            else:
+                a = s_lit(bigv)
+                bb = s_lit(small - bigv)
+                if a is None or bb is None: continue
+                a, _o = s_ip("addassign", a, bb)
+            if a is None: continue
+            operand = {"si": rng.randint(1, 9), "neg": -rng.randint(1, 9), "sf": "%d/%d" % (rng.randint(1, 9), rng.choice([2, 3, 7])),
+                       "bi": 2**40 + rng.randint(1, 99), "bf": "%d/3" % (2**40 + 1 + 3 * rng.randint(0, 9))}[kd]
+            b = None if op == "negate" else s_lit(operand)
+            if op != "negate" and b is None: continue
+            a, _o = s_ip(op, a, b)
+            if a is None: continue
+            g1 = s_lit(2**33 + rng.randint(1, 9))
+            if g1 is None: continue
+            a, _o = s_ip("mulassign", a, g1)
+            if a is None: continue
+            g2 = s_lit(rng.randint(1, 5))
+            if g2 is not None:
+                s_ip("addassign", a, g2)
         for _ in range(job.get("size", 60)):
             kind = rng.random()
             a = rng.choice(ids); b = rng.choice(ids)
@@ -92,6 +150,20 @@ def b_rat(job):
             if kind < 0.75:
                 op = rng.choice(["add", "sub", "mul", "div", "addassign", "subassign", "mulassign", "divassign", "neg", "negate", "inv",
                                  "floor", "ceil", "num", "den", "gcd", "lcm", "fdivq", "mod", "abs", "copy", "add", "mul", "sub", "div"])
+                if hot[0] is not None and hot[0] in vals and hot[0] in ids and rng.random() < 0.85:
+                    # an object whose word part and GMP part are both valid: every in-place operation must keep them in step
+                    a = hot[0]; an, ad = vals[a]
+                    op = rng.choice(["addassign", "subassign", "mulassign", "divassign", "negate", "addassign", "subassign"])
+                    b = rng.choice(ids)
+                    if rng.random() < 0.6:
+                        b = rng.choice([i for i in ids if abs(vals[i][0]) < 2**20 and vals[i][1] < 2**20] or ids)
+                    bn, bd = vals[b]
+                    force_ip = True
+                elif rng.random() < 0.3:
+                    op = rng.choice(["addassign", "subassign", "mulassign", "divassign", "negate"])
+                    force_ip = True
+                else:
+                    force_ip = False
                 if op in ("div", "divassign") and bn == 0: continue
                 if op == "inv" and an == 0: continue
                 if op in ("gcd", "lcm", "fdivq", "mod") and (ad != 1 or bd != 1): continue
@@ -100,7 +172,34 @@ def b_rat(job):
                 if max(abs(an), ad, abs(bn), bd) > 2**70: continue
                 nid += 1
                 unary = op in ("neg", "negate", "inv", "floor", "ceil", "num", "den", "abs", "copy")
-                o = cv.ask("op %d %s %d%s" % (nid, op, a, "" if unary else " %d" % b))
+                inplace = op in ("addassign", "subassign", "mulassign", "divassign", "negate") and a != b and (force_ip or rng.random() < 0.6)
+                if inplace and accs and hot[0] is None and rng.random() < 0.7:
+                    # continue a chain of in-place operations on one object
+                    a = accs[-1]; an, ad = vals[a]
+                    if a == b: inplace = False
+                if inplace and op in ("addassign", "subassign") and ad == 1 and abs(an) >= 2**31 and rng.random() < 0.5:
+                    # an operand that brings the big value back into the range of the word representation
+                    small = rng.randint(-3, 3)
+                    want = small - an if op == "addassign" else an - small
+                    o2 = cv.ask("lit %d %d" % (nid, want))
+                    if "err" not in o2:
+                        f2, nd2, c2 = value_fields(o2)
+                        vals[nid] = nd2; ids.append(nid)
+                        ev2 = dict(f2); ev2.update({"e": "lit", "i": nid, "src": {"n": big(want), "d": big(1)}, "cert": cert(**c2)})
+                        events.append(ev2)
+                        b = nid; bn, bd = nd2
+                        nid += 1
+                if inplace:
+                    o = cv.ask("ip %d %s %d%s" % (nid, op, a, "" if unary else " %d" % b))
+                    if "err" not in o:
+                        ids.remove(a)
+                        if a in accs: accs.remove(a)
+                        accs.append(nid)
+                        stats["inplace"] = stats.get("inplace", 0) + 1
+                        hot[0] = nid if (o.get("w") and o.get("m")) else (nid if hot[0] == a and rng.random() < 0.5 else None)
+                        if o.get("w") and o.get("m"): stats["both_valid"] = stats.get("both_valid", 0) + 1
+                else:
+                    o = cv.ask("op %d %s %d%s" % (nid, op, a, "" if unary else " %d" % b))
                 if "err" in o:
                     events.append({"e": "err", "i": nid}); continue
                 f, nd, c = value_fields(o)
